@@ -13,13 +13,20 @@ open Std Std.Target
 
 /-! ## the block map -/
 
-theorem disk_cons (t : T) (lba x : Nat) (b : Bytes) :
-    disk { t with blocks := (lba, b) :: t.blocks } x = if x = lba then b else disk t x := by
+theorem disk_push (t : T) (lo hi x : Nat) (b : Bytes) :
+    disk { t with blocks := (lo, hi, b) :: t.blocks } x = if lo ≤ x ∧ x < hi then b else disk t x := by
   unfold disk
+  by_cases h : lo ≤ x ∧ x < hi
+  · simp [List.find?_cons, h]
+  · simp [List.find?_cons, h]
+
+theorem disk_cons (t : T) (lba x : Nat) (b : Bytes) :
+    disk { t with blocks := (lba, lba + 1, b) :: t.blocks } x = if x = lba then b else disk t x := by
+  rw [disk_push]
   by_cases h : x = lba
   · subst h; simp
-  · have : ((lba, b).1 == x) = false := by simpa using fun e => h e.symm
-    simp [List.find?_cons, this, h]
+  · have : ¬ (lba ≤ x ∧ x < lba + 1) := by omega
+    simp [this, h]
 
 theorem writeBlocks_meta (t : T) (lba : Nat) (bs : List Bytes) :
     (writeBlocks t lba bs).blockSize = t.blockSize ∧ (writeBlocks t lba bs).capacity = t.capacity ∧
@@ -151,9 +158,9 @@ inductive Op
   deriving Repr
 
 /-- the specification: an ordinary function from block address to contents -/
-def specStep (bs : Nat) (d : Nat → Bytes) : Op → (Nat → Bytes)
+def specStep (bs cap : Nat) (d : Nat → Bytes) : Op → (Nat → Bytes)
   | .write lba tl data => fun x => if lba ≤ x ∧ x < lba + tl then (data.drop ((x - lba) * bs)).take bs else d x
-  | .writeSame lba nb blk => fun x => if lba ≤ x ∧ x < lba + nb then blk else d x
+  | .writeSame lba nb blk => fun x => if lba ≤ x ∧ x < (if nb = 0 then cap else lba + nb) then blk else d x
   | .sync => d
   | .read _ _ => d
 
@@ -161,7 +168,7 @@ def specStep (bs : Nat) (d : Nat → Bytes) : Op → (Nat → Bytes)
 does for the corresponding conformant CDB: `write_updates_disk`, `read_returns_disk`) -/
 def targetStep (t : T) : Op → T
   | .write lba tl data => writeBlocks t lba (chunks t.blockSize tl data)
-  | .writeSame lba nb blk => writeBlocks t lba (List.replicate nb blk)
+  | .writeSame lba nb blk => if nb = 0 then fillToEnd t lba blk else writeBlocks t lba (List.replicate nb blk)
   | .sync => t
   | .read _ _ => t
 
@@ -171,7 +178,7 @@ def opOK (t : T) : Op → Prop
   | _ => True
 
 theorem targetStep_refines (t : T) (op : Op) (hok : opOK t op) :
-    disk (targetStep t op) = specStep t.blockSize (disk t) op ∧ (targetStep t op).blockSize = t.blockSize ∧
+    disk (targetStep t op) = specStep t.blockSize t.capacity (disk t) op ∧ (targetStep t op).blockSize = t.blockSize ∧
     (targetStep t op).capacity = t.capacity := by
   cases op with
   | write lba tl data =>
@@ -184,17 +191,25 @@ theorem targetStep_refines (t : T) (op : Op) (hok : opOK t op) :
       rw [chunks_getElem _ _ _ _ (by omega)]; rfl
     · simp [h]
   | writeSame lba nb blk =>
-    refine ⟨?_, (writeBlocks_meta _ _ _).1, (writeBlocks_meta _ _ _).2.1⟩
-    funext x
-    simp only [targetStep, specStep]
-    rw [disk_writeBlocks t lba _ x (by intro b hb; rw [List.eq_of_mem_replicate hb]; exact hok.2)]
-    simp only [List.length_replicate]
-    by_cases h : lba ≤ x ∧ x < lba + nb
-    · simp only [h, and_self, if_true]
-      rw [List.getElem?_replicate]
-      have : x - lba < nb := by omega
-      simp [this]
-    · simp [h]
+    by_cases hz : nb = 0
+    · subst hz
+      refine ⟨?_, rfl, rfl⟩
+      funext x
+      simp only [targetStep, specStep, if_true, fillToEnd]
+      rw [disk_push]
+    · have e : targetStep t (.writeSame lba nb blk) = writeBlocks t lba (List.replicate nb blk) := by simp [targetStep, hz]
+      rw [e]
+      refine ⟨?_, (writeBlocks_meta _ _ _).1, (writeBlocks_meta _ _ _).2.1⟩
+      funext x
+      simp only [specStep, hz, if_false]
+      rw [disk_writeBlocks t lba _ x (by intro b hb; rw [List.eq_of_mem_replicate hb]; exact hok.2)]
+      simp only [List.length_replicate]
+      by_cases h : lba ≤ x ∧ x < lba + nb
+      · simp only [h, and_self, if_true]
+        rw [List.getElem?_replicate]
+        have : x - lba < nb := by omega
+        simp [this]
+      · simp [h]
   | sync => exact ⟨rfl, rfl, rfl⟩
   | read _ _ => exact ⟨rfl, rfl, rfl⟩
 
@@ -206,13 +221,34 @@ def allOK (t : T) : List Op → Prop
 the abstract disk that underwent the same operations: every READ returns exactly the data last
 written to each block. -/
 theorem run_refines (t : T) (ops : List Op) (hok : allOK t ops) :
-    disk (ops.foldl targetStep t) = ops.foldl (specStep t.blockSize) (disk t) := by
+    disk (ops.foldl targetStep t) = ops.foldl (specStep t.blockSize t.capacity) (disk t) := by
   induction ops generalizing t with
   | nil => rfl
   | cons op rest ih =>
     simp only [List.foldl_cons]
-    obtain ⟨h1, h2, _⟩ := targetStep_refines t op hok.1
-    rw [ih (targetStep t op) hok.2, h1, h2]
+    obtain ⟨h1, h2, h3⟩ := targetStep_refines t op hok.1
+    rw [ih (targetStep t op) hok.2, h1, h2, h3]
+
+/-- WRITE SAME(10/16) with a data-out block: what `step` does is the `writeSame` operation — also for a NUMBER OF
+LOGICAL BLOCKS of zero, which a target with WSNZ = 0 takes as "to the end of the medium" -/
+theorem write_same_updates_disk (t : T) (cdb : Bytes) (op lba nb : Nat) (hc : Conformant cdb op lba nb)
+    (hop : op = 0x41 ∨ op = 0x93) (hnd : ¬ (op = 0x93 ∧ (be cdb 1 1) % 2 = 1)) (hr : lba + nb ≤ t.capacity)
+    (blk : Bytes) (hb : blk.length = t.blockSize) :
+    (step t cdb blk 0).2.status = .good ∧ (step t cdb blk 0).1 = targetStep t (.writeSame lba nb blk) := by
+  obtain ⟨h1, _, h3⟩ := hc
+  unfold step
+  simp only [h1]
+  have hnr : ¬ (op = 0x28 ∨ op = 0xA8 ∨ op = 0x88) := by
+    rcases hop with h | h <;> subst h <;> decide
+  have hnw : ¬ (op = 0x2A ∨ op = 0xAA ∨ op = 0x8A) := by
+    rcases hop with h | h <;> subst h <;> decide
+  simp only [hnr, hnw, if_false, hop, if_true, h3, hnd, hr, hb, and_self, targetStep]
+
+/-- after WRITE SAME with a block count of zero every block from `lba` to the end of the medium reads as `blk` -/
+theorem disk_after_write_same_zero (t : T) (lba : Nat) (blk : Bytes) (x : Nat) :
+    disk (targetStep t (.writeSame lba 0 blk)) x = if lba ≤ x ∧ x < t.capacity then blk else disk t x := by
+  simp only [targetStep, if_true, fillToEnd]
+  rw [disk_push]
 
 /-! ## READ CAPACITY and INQUIRY report the target's geometry and identity -/
 
@@ -244,6 +280,6 @@ theorem be_eq_fieldOf (cdb : Bytes) (hb : Conv.BytesOK cdb) (b k : Nat) (name : 
   rw [this]
 
 example : (step ⟨4, 100, [], 0, [], []⟩ [0x2A, 0, 0, 0, 0, 5, 0, 0, 2, 0] [1, 2, 3, 4, 5, 6, 7, 8] 0).1.blocks
-    = [(6, [5, 6, 7, 8]), (5, [1, 2, 3, 4])] := by decide
+    = [(6, 7, [5, 6, 7, 8]), (5, 6, [1, 2, 3, 4])] := by decide
 
 end C12
